@@ -1040,6 +1040,319 @@ func v17SharedBucketRace(out *vOut) {
 	out.Stat("shared_bucket_rounds", n)
 }
 
+// ---------------------------------------------------------------- chains of throttle handlers
+
+// handlers run in the given order: the first wraps the socket, the last wraps outermost
+func v17ChainHandle(hs []*Handler, cx *layer4.Connection, next layer4.Handler) error {
+	h := next
+	for i := len(hs) - 1; i >= 0; i-- {
+		hi, inner := hs[i], h
+		h = layer4.HandlerFunc(func(cx *layer4.Connection) error { return hi.Handle(cx, inner) })
+	}
+	return h.Handle(cx)
+}
+
+func v17ChainBatch(hs []*Handler, l int64) int64 {
+	for _, h := range hs {
+		if h.totalLimiter != nil && int64(h.TotalReadBurstSize) < l {
+			l = int64(h.TotalReadBurstSize)
+		}
+		if h.ReadBurstSize > 0 && int64(h.ReadBurstSize) < l {
+			l = int64(h.ReadBurstSize)
+		}
+	}
+	return l
+}
+
+// clock-free: what the socket is asked for through 2..3 handlers (rates high enough that waits are microseconds)
+func v17ChainReadCases(out *vOut, r *vRng, n int) {
+	for i := 0; i < n; i++ {
+		k := 2 + r.Intn(2)
+		var cfgs []v17Cfg
+		var hs []*Handler
+		var cancels []context.CancelFunc
+		bad := false
+		for j := 0; j < k; j++ {
+			c := v17Cfg{rq: 1, trq: 1}
+			switch r.Intn(4) {
+			case 0:
+				c.rp, c.rburst = int64(20000000+r.Intn(1000000)), int64(1+r.Intn(60))
+			case 1:
+				c.trp, c.tburst = int64(20000000+r.Intn(1000000)), int64(1+r.Intn(60))
+			case 2:
+				c.rp, c.rburst = int64(20000000+r.Intn(1000000)), int64(1+r.Intn(60))
+				c.trp, c.tburst = int64(20000000+r.Intn(1000000)), int64(1+r.Intn(60))
+			default: // no limit at all, or a rate with its default burst
+				if r.Bool() {
+					c.rp = int64(30000000 + r.Intn(100))
+				}
+			}
+			h := c.handler()
+			err, cancel := v17Provision(h)
+			cancels = append(cancels, cancel)
+			if err != nil {
+				out.Fail("C17:provision:valid-config-rejected", fmt.Sprint(err), c.coq())
+				bad = true
+			}
+			cfgs, hs = append(cfgs, c), append(hs, h)
+		}
+		if bad {
+			for _, c := range cancels {
+				c()
+			}
+			continue
+		}
+		avail := int64(r.Intn(400))
+		chunk := 0
+		if r.Intn(3) == 0 {
+			chunk = 1 + r.Intn(30)
+		}
+		inner := &v17Inner{size: avail, chunk: chunk, seed: byte(i)}
+		var lens []int64
+		for m := 1 + r.Intn(10); m > 0; m-- {
+			switch r.Intn(4) {
+			case 0:
+				lens = append(lens, 4096)
+			case 1:
+				lens = append(lens, int64(r.Intn(3)))
+			default:
+				lens = append(lens, int64(1+r.Intn(100)))
+			}
+		}
+		names := make([]string, len(cfgs))
+		for j, c := range cfgs {
+			names[j] = c.coq()
+		}
+		input := map[string]any{"chain": names, "socket_stream_bytes": avail, "socket_max_per_read": chunk, "read_lengths": lens}
+		var got []byte
+		cx := layer4.WrapConnection(inner, nil, zap.NewNop())
+		herr := v17ChainHandle(hs, cx, layer4.HandlerFunc(func(cx *layer4.Connection) error {
+			for _, l := range lens {
+				p := make([]byte, l)
+				m, _ := cx.Read(p)
+				got = append(got, p[:m]...)
+			}
+			return nil
+		}))
+		for _, c := range cancels {
+			c()
+		}
+		if herr != nil {
+			out.Fail("C17:handle:error", fmt.Sprint(herr), input)
+			continue
+		}
+		want := make([]byte, len(got))
+		for m := range want {
+			want[m] = v17Byte(inner.seed, int64(m))
+		}
+		if !bytes.Equal(got, want) || int64(len(got)) != inner.off {
+			out.Fail("C17:stream:bytes-differ", fmt.Sprintf("chain of %d throttle handlers: the socket handed over %d bytes, the next handler received %d, first difference at %d", k, inner.off, len(got), v17Diff(got, want)), input)
+		}
+		if len(inner.asked) != len(lens) {
+			out.Fail("C17:read:inner-read-count", fmt.Sprintf("%d Reads, %d socket Reads", len(lens), len(inner.asked)), input)
+			continue
+		}
+		var obs []string
+		clipped := false
+		for m, a := range inner.asked {
+			b := v17ChainBatch(hs, lens[m])
+			if b < lens[m] {
+				clipped = true
+			}
+			if int64(a) > b {
+				out.Fail("C17:read:batch-exceeded", fmt.Sprintf("chain of %d throttle handlers, Read(p) with len(p)=%d: the socket's Read was given %d bytes of room, the smallest burst allows %d", k, lens[m], a, b), input)
+			}
+			obs = append(obs, fmt.Sprintf("(%d,%d)", a, inner.gave[m]))
+		}
+		out.Case(fmt.Sprintf("CChain [%s] %s %s %s [%s]", strings.Join(names, "; "), cZ(avail), cZ(int64(chunk2(chunk))), cZList(lens), strings.Join(obs, ";")),
+			fmt.Sprintf("chain-sizes:%d", k), clipped, map[string]any{"chain": names, "lens": lens, "obs": obs})
+	}
+}
+
+// real time: every handler of the chain must see its own bound respected
+type v17ChainCase struct {
+	hs     []v17Timed // rate, burst, trate, tburst, lat per handler (conns, bufLen, dur from the first)
+	conns  int
+	bufLen int
+	dur    time.Duration
+}
+
+func (c v17ChainCase) String() string {
+	var ss []string
+	for i, h := range c.hs {
+		ss = append(ss, fmt.Sprintf("handler %d: rate=%g burst=%d total_rate=%g total_burst=%d latency=%s", i, h.rate, h.burst, h.trate, h.tburst, h.lat))
+	}
+	return fmt.Sprintf("chain [%s] conns=%d buf=%d", strings.Join(ss, " | "), c.conns, c.bufLen)
+}
+
+func v17RunChain(c v17ChainCase, seed byte) (fails []v17Fail, pulled int64) {
+	var hs []*Handler
+	var latSum time.Duration
+	for _, hc := range c.hs {
+		h := &Handler{ReadBytesPerSecond: hc.rate, ReadBurstSize: hc.burst, TotalReadBytesPerSecond: hc.trate, TotalReadBurstSize: hc.tburst, Latency: caddy.Duration(hc.lat)}
+		err, cancel := v17Provision(h)
+		defer cancel()
+		if err != nil {
+			return []v17Fail{{"C17:provision:valid-config-rejected", err.Error()}}, 0
+		}
+		hs = append(hs, h)
+		latSum += hc.lat
+	}
+	batch := int(v17ChainBatch(hs, int64(c.bufLen)))
+	shared := &v17Shared{}
+	var mu sync.Mutex
+	var t0Total time.Time
+	var wg sync.WaitGroup
+	deadline := time.Now().Add(c.dur)
+	addFail := func(k, d string) { mu.Lock(); fails = append(fails, v17Fail{k, d}); mu.Unlock() }
+	for k := 0; k < c.conns; k++ {
+		wg.Add(1)
+		go func(k int) {
+			defer wg.Done()
+			inner := &v17Inner{size: 1 << 40, seed: seed + byte(k), shared: shared}
+			cx := layer4.WrapConnection(inner, nil, zap.NewNop())
+			var t0 time.Time
+			var got int64
+			entered := time.Now()
+			herr := v17ChainHandle(hs, cx, layer4.HandlerFunc(func(cx *layer4.Connection) error {
+				p := make([]byte, c.bufLen)
+				for time.Now().Before(deadline) {
+					before := time.Now()
+					if t0.IsZero() {
+						t0 = before
+						mu.Lock()
+						if t0Total.IsZero() || before.Before(t0Total) {
+							t0Total = before
+						}
+						mu.Unlock()
+					}
+					m, err := cx.Read(p)
+					for i := 0; i < m; i++ {
+						if p[i] != v17Byte(inner.seed, got+int64(i)) {
+							addFail("C17:stream:bytes-differ", fmt.Sprintf("connection %d: byte %d differs", k, got+int64(i)))
+							return nil
+						}
+					}
+					got += int64(m)
+					if err != nil {
+						addFail("C17:read:error", fmt.Sprintf("connection %d: %v", k, err))
+						return nil
+					}
+				}
+				return nil
+			}))
+			if herr != nil {
+				addFail("C17:handle:error", herr.Error())
+			}
+			inner.mu.Lock()
+			defer inner.mu.Unlock()
+			if got != inner.off {
+				addFail("C17:stream:bytes-differ", fmt.Sprintf("connection %d: delivered %d bytes, the socket handed over %d", k, got, inner.off))
+			}
+			if !inner.first.IsZero() && inner.first.Sub(entered) < latSum {
+				addFail("C17:latency:read-before-latency", fmt.Sprintf("connection %d: first socket Read %s after the chain was entered; the handlers' latencies add up to %s", k, inner.first.Sub(entered), latSum))
+			}
+			for _, a := range inner.asked {
+				if a > batch {
+					addFail("C17:read:batch-exceeded", fmt.Sprintf("connection %d: the socket's Read was given %d bytes of room, the smallest burst of the chain allows %d", k, a, batch))
+					break
+				}
+			}
+			for i, h := range hs {
+				if h.ReadBytesPerSecond > 0 || h.ReadBurstSize > 0 {
+					if ok, d := v17CheckBound(inner.samples, t0, h.ReadBytesPerSecond, h.ReadBurstSize, batch); !ok {
+						addFail("C17:bound:per-connection-exceeded", fmt.Sprintf("handler %d of the chain, connection %d: %s", i, k, d))
+					}
+				}
+			}
+		}(k)
+	}
+	wg.Wait()
+	shared.mu.Lock()
+	defer shared.mu.Unlock()
+	pulled = shared.cum
+	for i, h := range hs {
+		if h.totalLimiter != nil {
+			if ok, d := v17CheckBound(shared.samples, t0Total, h.TotalReadBytesPerSecond, h.TotalReadBurstSize, batch*c.conns); !ok {
+				fails = append(fails, v17Fail{"C17:bound:total-exceeded", fmt.Sprintf("handler %d of the chain: %s", i, d)})
+			}
+		}
+	}
+	return
+}
+
+func v17ChainTimedGen(r *vRng, n int) []v17ChainCase {
+	dur := 2500 * time.Millisecond
+	if vThorough() {
+		dur = 5 * time.Second
+	}
+	var cases []v17ChainCase
+	for i := 0; i < n; i++ {
+		c := v17ChainCase{conns: 1 + r.Intn(3), dur: dur, bufLen: []int{64, 1500, 4096, 32768}[r.Intn(4)]}
+		k := 2 + r.Intn(2)
+		strict := r.Intn(k) // which handler is the strict one
+		for j := 0; j < k; j++ {
+			h := v17Timed{}
+			lax := float64(100000 + r.Intn(200000))
+			switch {
+			case j == strict:
+				h.rate, h.burst = float64(1000+r.Intn(20000)), 256<<uint(r.Intn(5))
+			case r.Intn(3) == 0: // no per-connection limit here
+			default:
+				h.rate = lax // default burst
+			}
+			// total limits: none on any handler in a third of the chains (i%3 == 0), else on some
+			if i%3 != 0 && r.Intn(2) == 0 {
+				h.trate, h.tburst = float64(20000+r.Intn(100000)), 1024<<uint(r.Intn(5))
+			}
+			if r.Intn(2) == 0 {
+				h.lat = time.Duration(1+r.Intn(3)) * 50 * time.Millisecond
+			}
+			c.hs = append(c.hs, h)
+		}
+		cases = append(cases, c)
+	}
+	return cases
+}
+
+func v17ChainTimed(out *vOut, cases []v17ChainCase) {
+	type res struct {
+		fails  []v17Fail
+		pulled int64
+	}
+	results := make([]res, len(cases))
+	var wg sync.WaitGroup
+	for i, c := range cases {
+		wg.Add(1)
+		go func(i int, c v17ChainCase) {
+			defer wg.Done()
+			f, p := v17RunChain(c, byte(i))
+			if len(f) > 0 { // timing-sensitive: report only what happens twice
+				f2, _ := v17RunChain(c, byte(i))
+				keys := map[string]bool{}
+				for _, x := range f2 {
+					keys[x.key] = true
+				}
+				var keep []v17Fail
+				for _, x := range f {
+					if keys[x.key] {
+						keep = append(keep, x)
+					}
+				}
+				f = keep
+			}
+			results[i] = res{f, p}
+		}(i, c)
+	}
+	wg.Wait()
+	for i, c := range cases {
+		for _, f := range results[i].fails {
+			out.Fail(f.key, f.detail, c.String())
+		}
+		out.Case("", fmt.Sprintf("timed:chain-%d", len(c.hs)), results[i].pulled > 0, map[string]any{"cfg": c.String(), "pulled": results[i].pulled})
+	}
+}
+
 func TestVerifC17(t *testing.T) {
 	out := vOpen()
 	defer out.Close()
@@ -1049,6 +1362,7 @@ func TestVerifC17(t *testing.T) {
 	v17ReserveApprox(out, r, n/4)
 	v17ProvisionCases(out, r, n/5)
 	v17ReadCases(out, r, n/5)
+	v17ChainReadCases(out, r, n/10)
 	nt := 16
 	if vThorough() {
 		nt = 48
@@ -1056,5 +1370,13 @@ func TestVerifC17(t *testing.T) {
 	v17SharedBucketRace(out)
 	v17LatencyConfigs(out)
 	v17LatencyAfterCancel(out)
+	nc := 8
+	if vThorough() {
+		nc = 24
+	}
+	chains := v17ChainTimedGen(r, nc)
+	chainsDone := make(chan struct{})
+	go func() { defer close(chainsDone); v17ChainTimed(out, chains) }()
 	v17TimedCases(out, r, nt)
+	<-chainsDone
 }
